@@ -24,6 +24,15 @@ Held results (held_results): histories of calls (both functions, both units, equ
          calls in between, results fed back in as arguments).  Every array ever returned is looked at again after every later
          call and must hold exactly what it held when it was returned; then the caller overwrites its arguments and each result in
          turn: no other result may change (no result shares memory with another result or with an argument).
+Array sizes (array_sizes): lengths 2^k - 1, 2^k, 2^k + 1 for every k up to 17 (thorough: 20) and m * b + {-1, 0, 1, 2} for the block sizes
+         1000, 1024, 4096, 8192, 10000, 32768, 65536, 100000; filled from a pool of distinct values, with values whose plain difference
+         lies outside both ranges at the first and the last position and on both sides of every multiple of 256 and of 1000; 1-D plus one
+         other layout (strided / reversed view, column, row, 2-D, Fortran order).  The whole result is compared bitwise with the scalar
+         results; differing elements, the first and the last are judged one by one (scalar, range, congruence, rounded model).
+Fresh interpreters (fresh_processes): every (function, unit, argument kind, magnitude class |x| <= 1e-3, 1, pi, 2 pi, 90, 180, 360, 1080,
+         1e6, all zeros) as the FIRST conversion of a process, followed by the other functions / units in a random order - each scenario
+         in a fork of a freshly imported interpreter, and a selection in interpreters started for that scenario alone (logging enabled,
+         as in a user's process).  An exception is a violation; every returned element is judged like any other.
 Stage D  the property statement itself on the real functions, judged in exact rational arithmetic: range, congruence to a quarter
          turn minus the input, mutual inverse up to a turn, radian variant == degree variant, scalar == array element (bitwise).
 """
@@ -845,6 +854,352 @@ def held_results(ctx, n_rand):
     for steps in histories(ctx, max(6, n_rand // 400), 12):
         run_history(ctx, steps)
 
+# ---- array sizes: boundary lengths around powers of two and multiples of common block sizes ---------------------------------------
+BLOCKS = (1000, 1024, 4096, 8192, 10000, 1 << 15, 1 << 16, 100000)
+SIZE_LAYOUTS = ('strided view', 'column', 'row', '2-d', 'Fortran-order 2-d', 'reversed view')
+
+
+def boundary_sizes(ctx):
+    """2^k - 1, 2^k, 2^k + 1 for every k up to 17 (thorough: 20), and m * b + {-1, 0, 1, 2} for the common block sizes b."""
+    kmax = 20 if ctx.thorough else 17
+    mmax = 4 if ctx.thorough else 2
+    sizes = set()
+    for k in range(1, kmax + 1):
+        sizes |= {2 ** k - 1, 2 ** k, 2 ** k + 1}
+    for b in BLOCKS:
+        for m in range(1, (mmax if b >= 1 << 15 else mmax + 1) + 1):
+            sizes |= {m * b - 1, m * b, m * b + 1, m * b + 2}
+    return sorted(sizes)
+
+
+def size_pool(ctx, unit):
+    """(pool, hot): the distinct values the large arrays are filled with; hot = indices of the values whose plain difference
+    (quarter turn - x) lies outside BOTH target ranges, so that an element that is left unwrapped cannot go unnoticed."""
+    rng = ctx.rng
+    scale = 1.0 if unit.deg else math.pi / 180.0
+    pool = [v * scale for v in FOLLOW] + rng.sample(special_firsts(unit), 12)
+    pool += [rng.uniform(-1080.0, 1080.0) * scale for _ in range(12)] + [rng.uniform(-1e6, 1e6) for _ in range(4)]
+    pool += [rng.uniform(300.0, 1080.0) * scale for _ in range(6)] + [rng.uniform(-1080.0, -300.0) * scale for _ in range(6)]
+    seen, out = set(), []
+    for v in pool:
+        if bits(v) not in seen:
+            seen.add(bits(v))
+            out.append(v)
+    hot = [i for i, v in enumerate(out) if not (-unit.T / 2 <= unit.Q - Fraction(v) < unit.T)]
+    return out, hot
+
+
+def size_fill(n, npool, hot, fill_seed):
+    """Index into the pool for each of the n positions: random, with out-of-range values at the first and the last position and
+    on both sides of every multiple of 256 (hence of every larger power-of-two block) and of every multiple of 1000."""
+    rs = np.random.RandomState(fill_seed)
+    idx = rs.randint(0, npool, n)
+    edges = np.concatenate([np.arange(0, n, 256), np.arange(0, n, 1000), [n - 1, n - 2]])
+    pos = np.unique(np.clip(np.concatenate([edges - 1, edges, edges + 1]), 0, n - 1))
+    idx[pos] = np.array(hot)[rs.randint(0, len(hot), len(pos))]
+    return idx
+
+
+def size_layout(flat, label):
+    """The values of the 1-D array `flat` (in this logical C order) in another shape / memory layout; None when not possible."""
+    n = len(flat)
+    if label == '1-d':
+        return flat.copy()
+    if label == 'strided view':
+        big = np.zeros(2 * n)
+        big[::2] = flat
+        return big[::2]
+    if label == 'reversed view':
+        return flat[::-1].copy()[::-1]
+    if label == 'column':
+        return flat.reshape(-1, 1).copy()
+    if label == 'row':
+        return flat.reshape(1, -1).copy()
+    for d in (2, 3, 5, 7):
+        if n % d == 0 and n > d:
+            a = flat.reshape(d, -1) if d == 2 else flat.reshape(-1, d)
+            return a.copy() if label == '2-d' else np.asfortranarray(a)
+    return None
+
+
+def run_size(ctx, unit, n, labels, pool, hot, fill_seed, el):
+    """One length: the array in the named layouts, both functions; the whole result compared (bitwise, vectorised) with the scalar
+    results of the distinct values; every differing element (the first few), the first and the last one are judged one by one."""
+    idx = size_fill(n, len(pool), hot, fill_seed)
+    flat = np.array(pool, dtype=np.float64)[idx]
+    for name in ('yaw_to_heading', 'heading_to_yaw'):
+        base = {'unit': unit.name, 'category': 'array-size', 'function': name, 'size': n, 'fill_seed': fill_seed,
+                'pool_bits': [bits(v) for v in pool], 'hot': hot}
+        scal = []
+        for v in pool:
+            s = el.scalar(name, v, dict(base, x_bits=bits(v), x=repr(v)))
+            scal.append(float('nan') if s is None else s)
+        want = np.array(scal, dtype=np.float64)[idx]
+        for label in labels:
+            arr = size_layout(flat, label)
+            if arr is None:
+                continue
+            replay = dict(base, layout=label, x_bits=bits(flat[-1]), x=repr(float(flat[-1])))
+            text = '%s(<%s float64 array of %d elements>, deg=%s)' % (name, label, n, unit.deg)
+            before = arr.tobytes()
+            res = call(ctx, el.f[name], name, arr, unit, replay)
+            ctx.count('%s_size_%s' % (unit.name, label.replace(' ', '_')))
+            if res is None:
+                continue
+            if arr.tobytes() != before:
+                ctx.violation('C19/input-modified', '%s changed its argument' % text, replay)
+            if not check_array_result(ctx, unit, name, arr, res, text, replay):
+                continue
+            got = np.ascontiguousarray(np.asarray(res, dtype=np.float64).reshape(-1))
+            bad = np.nonzero(got.view(np.uint64) != want.view(np.uint64))[0]
+            for p in sorted(set(bad[:3].tolist() + bad[-2:].tolist() + [0, n - 1])):
+                x = float(flat[p])
+                el.judge(name, x, got[p], '%s, element %d of %d' % (text, p, n),
+                         dict(replay, position=int(p), x_bits=bits(x), x=repr(x)))
+            ctx.case('%s size %s %s %d %d' % (unit.name, name, label, n, fill_seed), nontrivial=True)
+
+
+def array_sizes(ctx):
+    sizes = boundary_sizes(ctx)
+    for unit in (DEG, RAD):
+        pool, hot = size_pool(ctx, unit)
+        el = Elements(ctx, unit, pool)
+        for name in ('yaw_to_heading', 'heading_to_yaw'):      # the distinct values themselves, judged as scalars
+            for v in pool:
+                rep = {'unit': unit.name, 'category': 'array-size-pool', 'function': name, 'x_bits': bits(v), 'x': repr(v)}
+                s = el.scalar(name, v, rep)
+                if s is not None:
+                    el.judge(name, v, s, '%s(%r, deg=%s)' % (name, v, unit.deg), rep)
+        for i, n in enumerate(sizes):
+            labels = ['1-d'] if n < 8 else ['1-d', SIZE_LAYOUTS[i % len(SIZE_LAYOUTS)]]
+            run_size(ctx, unit, n, labels, pool, hot, ctx.rng.randrange(1 << 30), el)
+
+
+# ---- fresh interpreters: the first calls of a process -------------------------------------------------------------------------------
+# The child: imports the package, then runs each scenario (a list of calls) either directly (one scenario = this fresh interpreter)
+# or, for several scenarios, each in a fork() of the freshly imported state - no conversion has been called in it yet.
+CHILD = r"""
+import json, os, struct, sys
+import numpy as np
+from fusion_engine_client.messages import defs
+F = {'yaw_to_heading': defs.yaw_to_heading, 'heading_to_yaw': defs.heading_to_yaw}
+
+
+def build(c):
+    xs = [struct.unpack('>d', bytes.fromhex(b))[0] for b in c['x_bits']]
+    k = c['kind']
+    if k == 'float':
+        return xs[0]
+    if k == 'int':
+        return int(xs[0])
+    if k == 'np.float64':
+        return np.float64(xs[0])
+    if k == '0-d array':
+        return np.array(xs[0])
+    if k == 'list':
+        return list(xs)
+    a = np.array(xs, dtype=np.float64)
+    if k == '2-d array':
+        return a.reshape(2, -1)
+    if k == 'column':
+        return a.reshape(-1, 1)
+    if k == 'strided view':
+        big = np.zeros(2 * len(a))
+        big[::2] = a
+        return big[::2]
+    if k == 'int64 array':
+        return a.astype(np.int64)
+    return a
+
+
+def run(sc):
+    out = []
+    for c in sc:
+        try:
+            f, arg, form = F[c['function']], build(c), c['form']
+            res = f(arg) if form == 'omitted' else f(arg, c['deg']) if form == 'positional' else f(arg, deg=c['deg'])
+            a = np.asarray(res, dtype=np.float64)
+            out.append({'type': type(res).__name__, 'shape': list(a.shape), 'dtype': str(getattr(res, 'dtype', '')),
+                        'bits': [struct.pack('>d', float(v)).hex() for v in a.reshape(-1)]})
+        except BaseException as e:
+            out.append({'raised': type(e).__name__, 'message': str(e)[:300]})
+    return out
+
+
+req = json.loads(sys.stdin.read())
+results = []
+if len(req) == 1:
+    results.append(run(req[0]))
+else:
+    sys.stdout.flush()
+    for sc in req:
+        r, w = os.pipe()
+        pid = os.fork()
+        if pid == 0:
+            try:
+                os.close(r)
+                with os.fdopen(w, 'w') as fw:
+                    fw.write(json.dumps(run(sc)))
+            finally:
+                os._exit(0)
+        os.close(w)
+        with os.fdopen(r) as fr:
+            data = fr.read()
+        os.waitpid(pid, 0)
+        try:
+            results.append(json.loads(data))
+        except Exception:
+            results.append(None)
+sys.stdout.write('\nC19-RESULT ' + json.dumps(results) + '\n')
+"""
+KINDS = ['1-d array', 'one-element array', '2-d array', 'column', 'strided view', '0-d array', 'float', 'np.float64', 'int',
+         'int64 array', 'list']
+ARRAY_KINDS = ('1-d array', 'one-element array', '2-d array', 'column', 'strided view', 'int64 array', 'list')
+# magnitude classes: |x| <= M for every element (the usual limits of "looks like radians / like degrees" and of one turn)
+MAGS = [('<=1e-3', 1e-3), ('<=1', 1.0), ('<=pi', math.pi), ('<=2pi', 2.0 * math.pi), ('<=90', 90.0), ('<=180', 180.0),
+        ('<=360', 360.0), ('<=1080', 1080.0), ('<=1e6', 1e6), ('zeros', 0.0)]
+
+
+def fresh_values(ctx, kind, mag):
+    rng = ctx.rng
+    n = 1 if kind not in ARRAY_KINDS or kind == 'one-element array' else 4
+    if mag == 0.0:
+        return [rng.choice([0.0, -0.0]) if kind not in ('int', 'int64 array') else 0.0 for _ in range(n)]
+    if kind in ('int', 'int64 array'):
+        m = max(1, int(mag))
+        return [float(rng.choice([-1, 1]) * rng.randint(1, m)) for _ in range(n)]
+    vals = [rng.uniform(-mag, mag) for _ in range(n)]
+    if rng.random() < 0.3:
+        vals[rng.randrange(n)] = rng.choice([-mag, mag])
+    return vals
+
+
+def fresh_call(ctx, name, unit, kind, mag):
+    form = ctx.rng.choice(['omitted', 'positional', 'keyword'] if unit.deg else ['positional', 'keyword'])
+    return {'function': name, 'unit': unit.name, 'deg': unit.deg, 'form': form, 'kind': kind,
+            'x_bits': [bits(v) for v in fresh_values(ctx, kind, mag)]}
+
+
+def fresh_scenario(ctx, name, unit, kind, mag, n_follow=2):
+    """The first call of the process is (name, unit, kind, magnitude); afterwards every (function, unit) in a random order, as
+    array and as scalar calls on small and on wide values - they are the SECOND.. calls after that first one."""
+    rng = ctx.rng
+    sc = [fresh_call(ctx, name, unit, kind, mag)]
+    rest = []
+    for n2, u2 in COMBOS:
+        for _ in range(n_follow):
+            rest.append(fresh_call(ctx, n2, UNITS[u2], rng.choice(KINDS[:-1]), rng.choice(MAGS)[1]))
+    rng.shuffle(rest)
+    return sc + rest
+
+
+def show_fresh(c):
+    xs = [from_bits(b) for b in c['x_bits']]
+    arg = repr(xs[0]) if c['kind'] == 'float' else repr(int(xs[0])) if c['kind'] == 'int' else \
+        '<%s %s>' % (c['kind'], repr(xs[0]) if c['kind'] in ('np.float64', '0-d array') else repr(xs))
+    return '%s(%s%s)' % (c['function'], arg, '' if c['form'] == 'omitted' else ', %s' % c['deg'] if c['form'] == 'positional'
+                         else ', deg=%s' % c['deg'])
+
+
+def run_children(batches):
+    """batches: lists of scenarios, one child interpreter each (a list of one scenario runs in that interpreter itself, a longer
+    list in forks of its freshly imported state).  Returns the per-batch lists of per-scenario results."""
+    import subprocess
+    import sys
+    import threading
+    env = dict(__import__('os').environ, OPENBLAS_NUM_THREADS='1', OMP_NUM_THREADS='1')
+    out = [None] * len(batches)
+    sem = threading.Semaphore(8)
+
+    def work(i):
+        with sem:
+            try:
+                p = subprocess.run([sys.executable, '-c', CHILD], input=json.dumps(batches[i]), capture_output=True, text=True,
+                                   timeout=600, env=env)
+            except subprocess.TimeoutExpired:
+                out[i] = 'timed out'
+                return
+            line = [ln for ln in p.stdout.split('\n') if ln.startswith('C19-RESULT ')]
+            out[i] = json.loads(line[-1][len('C19-RESULT '):]) if line else 'exit %s: %s' % (p.returncode, p.stderr[-400:])
+    ths = [threading.Thread(target=work, args=(i,)) for i in range(len(batches))]
+    for t in ths:
+        t.start()
+    for t in ths:
+        t.join()
+    return out
+
+
+def judge_fresh(ctx, sc, results, els, how):
+    """Every call of one process: an exception is a violation (a plain sequence may be refused with TypeError, as in the call-form
+    stage); the result has the argument's shape and every element is judged like any other (scalar, property, rounded model)."""
+    for i, (c, r) in enumerate(zip(sc, results)):
+        unit = UNITS[c['unit']]
+        name = c['function']
+        xs = [from_bits(b) for b in c['x_bits']]
+        where = 'call #%d of %s' % (i + 1, how) + ('' if i == 0 else ' (after %s)' % '; '.join(show_fresh(p) for p in sc[:i][-3:]))
+        text = '%s: %s' % (where, show_fresh(c))
+        replay = {'category': 'fresh-process', 'unit': unit.name, 'function': name, 'x_bits': c['x_bits'], 'x': repr(xs[0]),
+                  'call': show_fresh(c), 'calls': sc[:i + 1]}
+        ctx.count('fresh_%s_%s' % ('first' if i == 0 else 'later', c['kind'].replace(' ', '_')))
+        if 'raised' in r:
+            if c['kind'] == 'list' and r['raised'] == 'TypeError':
+                ctx.count('sequence_not_accepted')
+                continue
+            ctx.violation('C19/%s-raised' % name, '%s raised %s: %s' % (text, r['raised'], r['message']), replay)
+            return      # the state of this process is no longer the one the scenario meant to set up
+        shape = {'2-d array': [2, len(xs) // 2], 'column': [len(xs), 1]}.get(c['kind'], [len(xs)] if c['kind'] in ARRAY_KINDS else [])
+        if r['shape'] != shape or (c['kind'] in ARRAY_KINDS and r['type'] != 'ndarray'):
+            ctx.violation('C19/array-shape', '%s: argument of shape %s, result %s of shape %s' % (text, shape, r['type'], r['shape']),
+                          replay)
+            continue
+        for x, rb in zip(xs, r['bits']):
+            els[unit.name].judge(name, x, from_bits(rb), text, replay)
+    ctx.case('fresh ' + json.dumps(sc, sort_keys=True), nontrivial=True)
+
+
+def fresh_processes(ctx):
+    """(a) every (function, unit, argument kind, magnitude class) as the FIRST conversion of a process, each in a fork of a freshly
+    imported interpreter (quick: the classes up to 2 pi, one turn, zeros and one other); (b) a selection of them (quick: an array-first
+    and a scalar-first process per function x unit; thorough: every function x unit x kind, two magnitudes) in interpreters started
+    for that one scenario."""
+    rng = ctx.rng
+    forked, alone = [], []
+    nf = 2 if ctx.thorough else 1
+    for name, uname in COMBOS:
+        unit = UNITS[uname]
+        for kind in KINDS:
+            # quick: every class up to 2 pi, one turn, all zeros, and one of the others
+            mags = MAGS if ctx.thorough else MAGS[:4] + [MAGS[6], MAGS[9], rng.choice([MAGS[4], MAGS[5], MAGS[7], MAGS[8]])]
+            for _, mag in mags:
+                forked.append(fresh_scenario(ctx, name, unit, kind, mag, nf))
+            if ctx.thorough:
+                for _, mag in rng.sample(MAGS[:4], 1) + rng.sample(MAGS[4:-1], 1):
+                    alone.append(fresh_scenario(ctx, name, unit, kind, mag, nf))
+        if not ctx.thorough:
+            alone.append(fresh_scenario(ctx, name, unit, rng.choice(ARRAY_KINDS[:5]), rng.choice(MAGS[:7])[1], nf))
+            alone.append(fresh_scenario(ctx, name, unit, rng.choice(KINDS[5:8]), rng.choice(MAGS[:7])[1], nf))
+    nb = 8 if ctx.thorough else 4
+    batches = [forked[i::nb] for i in range(nb)] + [[sc] for sc in alone]
+    outs = run_children(batches)
+    els = {}
+    for unit in (DEG, RAD):
+        vals = [from_bits(b) for batch in batches for sc in batch for c in sc if c['unit'] == unit.name for b in c['x_bits']]
+        els[unit.name] = Elements(ctx, unit, vals)
+    for bi, (batch, res) in enumerate(zip(batches, outs)):
+        how = 'a fresh interpreter' if bi >= nb else 'a fork of a freshly imported interpreter'
+        if not isinstance(res, list) or len(res) != len(batch) or any(r is None or len(r) != len(sc) for r, sc in zip(res, batch)):
+            raise fv.InfraError('C19 child interpreter gave no usable answer: %s' % (str(res)[:400],))
+        for sc, r in zip(batch, res):
+            judge_fresh(ctx, sc, r, els, how)
+
+
+def run_fresh_replay(ctx, calls):
+    out = run_children([[calls]])[0]
+    if not isinstance(out, list):
+        raise fv.InfraError('C19 child interpreter gave no usable answer: %s' % (str(out)[:400],))
+    els = {u.name: Elements(ctx, u, [from_bits(b) for c in calls if c['unit'] == u.name for b in c['x_bits']]) for u in (DEG, RAD)}
+    judge_fresh(ctx, calls, out[0], els, 'a fresh interpreter')
+
 
 def run(ctx, n_rand, step_div):
     for unit in (DEG, RAD):
@@ -852,6 +1207,8 @@ def run(ctx, n_rand, step_div):
     misc(ctx)
     array_orders(ctx, n_rand)
     held_results(ctx, n_rand)
+    array_sizes(ctx)
+    fresh_processes(ctx)
     call_forms(ctx, form_values(ctx, max(10, n_rand // 150)))
 
 
@@ -874,9 +1231,13 @@ def check(ctx):
                        'rotation, 6 layouts, result dtype floating, each element == scalar == rounded model and judged by the '
                        'property. Held results: call histories (both functions/units, equal and different shapes, results fed back '
                        'in); every returned array re-read after every later call and after the caller overwrites arguments and other '
-                       'results. A case '
+                       'results. Array sizes: 2^k-1, 2^k, 2^k+1 (k <= %d) and m*b+{-1,0,1,2} for block sizes 1000..100000, '
+                       'out-of-range values at the first/last position and around every multiple of 256 and 1000, whole result == scalar '
+                       'results bitwise. Fresh interpreters: every (function, unit, argument kind, magnitude class) as the first '
+                       'conversion of a process (forks of a freshly imported interpreter plus interpreters of their own), then the '
+                       'other functions/units; exceptions are violations, elements judged as everywhere. A case '
                        'is non-trivial when a wrap took place (result differs from quarter turn - x by a turn or more) or x is within 8 tolerances of a wrap '
-                       'point; distinct = distinct (unit, input bits).' % (32 if ctx.thorough else 8))
+                       'point; distinct = distinct (unit, input bits).' % (32 if ctx.thorough else 8, 20 if ctx.thorough else 17))
     ctx.assumptions += [
         'PARTIAL: the theorems are over exact rationals; IEEE-754 rounding of the three +/- operations is not modelled. The '
         'in-range claim at rounding boundaries (a result rounded to exactly 360.0 / 180.0) is covered by the boundary inputs of this '
@@ -917,6 +1278,13 @@ def replay(ctx, path):
         return fv.finish(ctx, 'proof', None)
     unit = UNITS[r['unit']]
     xs = [from_bits(b) for b in (xb if isinstance(xb, list) else [xb])]
+    if r.get('category') == 'fresh-process':
+        run_fresh_replay(ctx, r['calls'])
+        return fv.finish(ctx, 'proof', None)
+    if r.get('category') == 'array-size':
+        pool = [from_bits(b) for b in r['pool_bits']]
+        run_size(ctx, unit, r['size'], [r.get('layout', '1-d'), '1-d'], pool, r['hot'], r['fill_seed'], Elements(ctx, unit, pool))
+        return fv.finish(ctx, 'proof', None)
     if r.get('category') == 'array-order':
         run_order(ctx, unit, xs, [r.get('layout', '1-d'), '1-d'])
         return fv.finish(ctx, 'proof', None)
